@@ -478,7 +478,7 @@ vh_guard_str (const char *s, size_t n)
 size_t vh_mmap_cap = (size_t) 1200 << 20;
 long vh_mmap_calls, vh_munmap_calls, vh_mmap_live, vh_mmap_capped;
 size_t vh_mmap_live_bytes, vh_mmap_peak;
-long vh_fail_at[2];
+long vh_fail_at[3];
 long vh_req_count;
 volatile int vh_seam_armed;
 char vh_req_log[256];
@@ -536,7 +536,7 @@ seam_request (char kind)
       vh_req_log[l] = kind;
       vh_req_log[l + 1] = 0;
     }
-  return vh_req_count == vh_fail_at[0] || vh_req_count == vh_fail_at[1];
+  return vh_req_count == vh_fail_at[0] || vh_req_count == vh_fail_at[1] || vh_req_count == vh_fail_at[2];
 }
 
 void *mmap (void *addr, size_t len, int prot, int flags, int fd, off_t off);
